@@ -938,12 +938,12 @@ class _Prop:
         "(sorted, reversed, hashed permutation of every directory listing) x {x.py before x.pyi, x.pyi before x.py}; "
         "each load is compared with a reference merge model and monitored for alias resolution inside merger.py, "
         "and the two pair orders of one base order must give the same normalised tree. Non-trivial = at least one directory listing had a choice of order; distinct = "
-        "distinct (placement, merged-tree hash, number of schedules), counted with a set of 64-bit hashes. Also drawn: decorators, class bases, properties with setters/deleters, shuffled stub parameter order, wildcard re-exports (`from pkg._impl import *`) in runtime modules, find_stubs_package independent of the placement, either order of the two search paths; every load is additionally compared with a stubs-free load of the same world (no runtime fact may change) and checked for parent/container consistency."
+        "distinct (placement, merged-tree hash, number of schedules), counted with a set of 64-bit hashes. Also drawn: decorators, class bases, properties with setters/deleters, shuffled stub parameter order, wildcard re-exports (`from pkg._impl import *`) in runtime modules, find_stubs_package independent of the placement, either order of the two search paths; every load is additionally compared with a stubs-free load of the same world (no runtime fact may change) and checked for parent/container consistency. Round j/k: members under `if TYPE_CHECKING:`; runtime modules that exist only in compiled form (.so/.pyd/.pyc next to their stubs, analysed through a stand-in inspector); stubs declared at the public location of a class the runtime re-exports (its stub-only members must reach the class)."
     )
     COMPONENTS = {
         "real": ["_griffe.loader", "_griffe.finder", "_griffe.agents.visitor", "_griffe.merger", "_griffe.mixins.set_member", "_griffe.models", "real files on tmpfs"],
-        "stubbed": [],
-        "seams": ["os.scandir/os.listdir order (ListingSeam)", "Alias.resolve_target recording wrapper (monitor)"],
+        "stubbed": ["inspector (only in worlds with compiled runtime modules): the generated .so/.pyd/.pyc file carries the source text it stands for and is analysed statically, keeping the compiled file as the module's path - a real extension module cannot be generated"],
+        "seams": ["os.scandir/os.listdir order (ListingSeam)", "Alias.resolve_target recording wrapper (monitor)", "_griffe.loader.inspect (stand-in)"],
     }
     ASSUMPTIONS = [
         "reference merge model (~90 lines) written from the property statement",
